@@ -158,6 +158,11 @@ def main(argv=None):
         if res["rc"] not in (0, 1) or not res.get("summary"):
             infra.append("%s: verus rc=%s %s" % (ur["unit"], res["rc"], res["raw_err_tail"][-600:]))
             continue
+        # cross-check against the verifier's own count: every function it reports as failed must have produced a diagnostic this engine placed
+        n_err = int((res.get("summary") or {}).get("errors", 0) or 0)
+        if n_err > 0 and not ur["attributed"]:
+            infra.append("%s: verus reports %d failed function(s) but no diagnostic could be read: undecided" % (ur["unit"], n_err))
+            continue
         for o in obligations_for(prop, ur):
             obs.setdefault(o["id"], o)
         for a in ur["attributed"]:
